@@ -107,6 +107,20 @@ def step (s : State) (args : List String) : State × String :=
     let dir := bytesToString (unhex p)
     let (c, v) := ctor (os s.tree) s.cwd dir
     ({ s with cwd := c, stack := v :: s.stack }, showCwd c)
+  | ["dv_restore"] =>
+    match s.stack with
+    | [] => (s, "!no-visitor")
+    | v :: _ => let c := restore (os s.tree) s.cwd v; ({ s with cwd := c }, showCwd c)
+  | ["dv_visit", p] =>
+    match s.stack with
+    | [] => (s, "!no-visitor")
+    | v :: r =>
+      let dir := bytesToString (unhex p)
+      let (c, v') := visit (os s.tree) s.cwd { v with m_dir := dir }     -- set(dir); visit();
+      ({ s with cwd := c, stack := v' :: r }, showCwd c)
+  | ["chdir", p] =>
+    let c := (os s.tree).chdir s.cwd (bytesToString (unhex p))
+    ({ s with cwd := c }, showCwd c)
   | ["dv_pop"] =>
     match s.stack with
     | [] => (s, "!no-visitor")
